@@ -143,15 +143,15 @@ class CountMinSketch(FrequencySketch[T]):
         return seeds
 
     def _hash(self, item: T, row: int) -> int:
-        """Hash an item to a column index for a specific row."""
-        # Combine item hash with row-specific seed
-        item_hash = hash(item)
-        combined = item_hash ^ self._hash_seeds[row]
-        # Mask to 64 bits to avoid overflow in struct.pack
-        combined = combined & 0xFFFFFFFFFFFFFFFF
-        # Use another round of hashing for better distribution
+        """Hash an item to a column index for a specific row.
+
+        Uses a seeded SHA-256 of ``repr(item)`` (as BloomFilter and HyperLogLog do) rather than
+        the builtin ``hash()``, which is randomised per process for str/bytes and would make
+        estimates differ from one interpreter to the next.
+        """
         h = hashlib.sha256()
-        h.update(struct.pack(">Q", combined))
+        h.update(struct.pack(">Q", self._hash_seeds[row]))
+        h.update(repr(item).encode("utf-8"))
         return struct.unpack(">Q", h.digest()[:8])[0] % self._width
 
     @property
